@@ -37,6 +37,13 @@ func vhNoCovering(g b6.Geometry, coverer s2.RegionCoverer) s2.CellUnion {
 // put into the world's tables directly (so that the pre-state does not depend
 // on S2 loop validation).
 func vhGeometryWorld(features *FeaturesByID, references *FeatureReferencesByID) {
+	vhGeometryWorldWithArea(features, references, false)
+}
+
+// vhGeometryWorldWithArea: with mixed, the area's first polygon is given
+// explicitly (an s2.Polygon that is never looked into here) and its second by
+// the path's ID; otherwise its only polygon is given by the path's ID.
+func vhGeometryWorldWithArea(features *FeaturesByID, references *FeatureReferencesByID, mixed bool) {
 	add := func(f Feature) {
 		features.AddFeature(f)
 		references.AddFeature(f)
@@ -46,8 +53,14 @@ func vhGeometryWorld(features *FeaturesByID, references *FeatureReferencesByID) 
 	}
 	add(vhPath([]int{0, 1, 2, 0}))
 	a := NewAreaFeature(1)
+	if mixed {
+		a = NewAreaFeature(2)
+		a.SetPolygon(0, &s2.Polygon{})
+		a.SetPathIDs(1, []b6.FeatureID{vhPathID})
+	} else {
+		a.SetPathIDs(0, []b6.FeatureID{vhPathID})
+	}
 	a.AreaID = vhAreaID.ToAreaID()
-	a.SetPathIDs(0, []b6.FeatureID{vhPathID})
 	a.AddTag(b6.Tag{Key: "#landuse", Value: b6.NewStringExpression("park")})
 	add(a)
 }
